@@ -244,30 +244,28 @@ QUAL_PRIORITY = ["via-star", "dotted-import-as", "plain-import-of-module-in-anot
                  "reexported", "relative-import"]
 
 
-def top_qualifier(quals):
-    for q in QUAL_PRIORITY:
-        if q in quals:
-            return q
-    return None
+def ordered_qualifiers(quals):
+    return [q for q in QUAL_PRIORITY if q in quals]
 
 
 def check_target(tgt, d, rel, quals=()):
-    q = top_qualifier(quals)
+    """-> (ok, [expected kinds, most specific first], description)"""
+    qs = ordered_qualifiers(quals)
+    note = (" [%s]" % ",".join(quals)) if quals else ""
     if tgt[0] == "decl":
         ok = (d["kind"] == "decl" and d["unit"] == tgt[1] and d["owner"][0] == "unit"
               and c05_py.decl_name(d) == tgt[2] and d["op"] not in ("import_stmt", "from_import_stmt"))
-        return ok, ("imported:" + q) if q else "imported-decl", "the module-level declaration of %s in %s%s" % (
-            tgt[2], tgt[1], (" [%s]" % ",".join(quals)) if quals else "")
+        return ok, ["imported:" + q for q in qs] + ["imported-decl"], \
+            "the module-level declaration of %s in %s%s" % (tgt[2], tgt[1], note)
     if tgt[0] == "module":
         ok = d["kind"] == "module" and d["path"] in (tgt[1], tgt[1] + "/__init__.py")
-        return ok, ("imported:" + q) if q else "imported-module", "module %s%s" % (
-            tgt[1], (" [%s]" % ",".join(quals)) if quals else "")
+        return ok, ["imported:" + q for q in qs] + ["imported-module"], "module %s%s" % (tgt[1], note)
     if tgt[0] == "unresolvable":
         ok = d["kind"] == "unresolved" or (d["kind"] == "decl" and d["unit"] == tgt[1] and d["line"] == tgt[2]
                                             and d["op"] in ("import_stmt", "from_import_stmt"))
-        return ok, ("unresolvable-import:" + q) if q else "unresolvable-import", \
-            "the import statement at %s:%d itself (nothing to import)" % (tgt[1], tgt[2])
-    return True, "ambiguous", "ambiguous"
+        return ok, ["unresolvable-import:" + q for q in qs] + ["unresolvable-import"], \
+            "the import statement at %s:%d itself (nothing to import)%s" % (tgt[1], tgt[2], note)
+    return True, ["ambiguous"], "ambiguous"
 
 
 # ---------------------------------------------------------------------------------------------
